@@ -26,7 +26,7 @@ Proof.
   assert (Hr : run (bs n) ip h w (force a) = Done h' w' (inl v) d) by (rewrite run_is_runG, H; reflexivity).
   destruct (HB _ _ _ _ _ _ _ _ Hr I) as (_ & _ & I'). split; auto.
   unfold force in H. cbn [runG] in H.
-  destruct a as [z|fl|b|s|s|l|dc|f|i|sp l| |u]; try (inversion H; subst; reflexivity).
+  destruct a as [z|fl|b|s|s|l|dc|f|i|sp l| |u|cr ci]; try (inversion H; subst; reflexivity).
   destruct (get h u) as [cl|] eqn:G; [|discriminate].
   destruct (c_cache cl) as [[sv|er]|] eqn:C; try discriminate.
   - inversion H; subst. destruct I as (_ & SC & _). eapply SC; eauto.
@@ -62,7 +62,7 @@ Proof.
   cbn [bs] in H. rewrite run_is_runG in H. unfold deep_body in H. rewrite runG_bind in H.
   destruct (runG (bs n) value ip h w (force a)) as [h1 w1 [x|e] d1| |] eqn:Hf; cbn [thenG] in H; try discriminate.
   destruct (force_strict _ _ _ _ _ _ _ _ _ Hf I) as (Sx & I1).
-  destruct x as [z|fl|b|s|s|l|dc|f|i|sp l| |u]; try discriminate Sx;
+  destruct x as [z|fl|b|s|s|l|dc|f|i|sp l| |u|cr ci]; try discriminate Sx;
     try (cbn [runG upddG to_out] in H; inversion H; subst; exact Logic.I).
   - rewrite runG_bind in H.
     destruct (runG (bs n) (list value) ip h1 w1 (map_call PDeep l)) as [h2 w2 [ys|e] d2| |] eqn:Hm; cbn [thenG upddG runG to_out] in H; try discriminate.
